@@ -512,9 +512,7 @@ impl ErdosRenyi for AdjacencyMap {
     /// * Panics if `order` is zero.
     /// * Panics if `p` isn't in `[0, 1]`.
     fn erdos_renyi(order: usize, p: f64, seed: u64) -> Self {
-        #[cfg(graaf_verif)]
-        use crate::verif_rt::{available_parallelism, thread};
-
+        #[cfg(graaf_verif)] use crate::verif_rt::{available_parallelism, thread};
         assert!(order > 0, "a digraph has at least one vertex");
         assert!((0.0..=1.0).contains(&p), "p = {p} must be in [0, 1]");
 
@@ -995,9 +993,7 @@ impl RandomTournament for AdjacencyMap {
     ///
     /// Panics if `order` is zero.
     fn random_tournament(order: usize, seed: u64) -> Self {
-        #[cfg(graaf_verif)]
-        use crate::verif_rt::{available_parallelism, spawn, Mutex};
-
+        #[cfg(graaf_verif)] use crate::verif_rt::{available_parallelism, spawn, Mutex};
         assert!(order > 0, "a digraph has at least one vertex");
 
         if order == 1 {
@@ -1200,9 +1196,7 @@ impl Union for AdjacencyMap {
     /// the order of `self`, `v2` is the order of `other`, and `U` is the
     /// number of arcs in the union of `self` and `other`.
     fn union(&self, other: &Self) -> Self {
-        #[cfg(graaf_verif)]
-        use crate::verif_rt::{available_parallelism, scope};
-
+        #[cfg(graaf_verif)] use crate::verif_rt::{available_parallelism, scope};
         let lhs_vec = self
             .arcs
             .iter()
